@@ -49,11 +49,11 @@ Proof. reflexivity. Qed.
 (* after any sequence of value / raw_text / indent assignments (values: any string; raw texts: any text
    _parse_value accepts, in particular every lexeme; indents: without ';' and LF) the raw text parses to
    (indent, value) *)
-Theorem C12_block_history : forall (t : btok) (ops : list b_op),
+Theorem C12_block_history : forall (parse_first : bool) (t : btok) (ops : list b_op),
   b_coherent t -> Forall b_op_ok ops ->
-  let t' := b_run SplitNl t ops in
+  let t' := b_run SplitNl parse_first t ops in
   block_parse SplitNl (b_raw t') = Ok (b_indent t', b_value t') /\ indent_codec_ok (b_indent t') = true.
-Proof. intros t ops Ht Hops. destruct (b_history t ops Ht Hops) as [H1 H2]. split; assumption. Qed.
+Proof. intros pf t ops Ht Hops. destruct (b_history pf t ops Ht Hops) as [H1 H2]. split; assumption. Qed.
 Theorem C12_block_history_starts : forall i v s t,
   (indent_codec_ok i = true -> b_coherent (b_from_value SplitNl i v)) /\
   (b_from_raw_text SplitNl s = Ok t -> b_coherent t).
@@ -124,7 +124,8 @@ Proof. intros V parse s. split; [apply sv_from_raw_text_accepts | apply sv_from_
    the raw text parses to the value; instantiated for every class *)
 (* history_ok parse format dom  (TokensProofs.v)  :=
      (forall v, dom v = true -> coherent parse (sv_from_value format v)) /\
-     forall t ops, coherent parse t -> Forall (op_ok parse dom) ops -> coherent parse (sv_run parse format t ops)
+     forall parse_first t ops, coherent parse t -> Forall (op_ok parse dom) ops ->
+                               coherent parse (sv_run parse format parse_first t ops)
    with  coherent parse t := parse (t_raw t) = Ok (t_val t)
          op_ok (SetValue v) := dom v = true ;  op_ok (SetRaw s) := exists v, parse s = Ok v *)
 Theorem C12_history :
